@@ -754,6 +754,11 @@ def run(ctx, status):
             ctx.note(f"T-gen: {k} {v}")
     ctx.extra["tgen_io_tables"] = {k: v for k, v in io_status.items() if not k.startswith("h5.")}
     driver_ok = lean_phase(ctx, status, ["OrixProofs.Properties.C15"])
+    if any(f.site.startswith("lean:") for f in ctx.failures):
+        # a dependency of the property module (lemma file, generated table) no longer builds: lake then does not
+        # rebuild the property module and its stale .olean must not count as discharged
+        for t in ctx.obligations:
+            ctx.obligations[t] = False
     if ctx.replay:
         site, case, body = sites.load_replay(ctx.replay)
         if site in SITES:
